@@ -857,17 +857,13 @@ def d_call(cx, bi, t):
     return None
 
 
-_QVN = {}
-
-
 def query_values_normalised(ctx):
     """Premise of the `encoded-domain` discharge: every value query_string_to_normalized_map stores is the `?` result of
     normalize_query_string_element, as it is (one source per String local on the way, nothing else producing a String):
     a value kept `as presented` for some key (`X-Amz-Signature`) can hold a malformed escape, on which a later
     unescape_uri_encoding panics."""
-    key = id(ctx.facts)
-    if key in _QVN:
-        return _QVN[key]
+    if hasattr(ctx.facts, "_qvn"):
+        return ctx.facts._qvn  # cached on the fact base itself (an id()-keyed table outlives the object it was made for)
     ok = True
     try:
         b = ctx.fn("canonical::query_string_to_normalized_map")
@@ -883,7 +879,7 @@ def query_values_normalised(ctx):
                 ok = False
     except Exception:  # anchor lost: the premise is not established
         ok = False
-    _QVN[key] = ok
+    ctx.facts._qvn = ok
     return ok
 
 
